@@ -2,7 +2,8 @@ SPECIFICATION TSpec
 CONSTANTS
   MaxLen = 0
   Adaptors = {"enumerate", "reverse"}
-  Cats = {"lvalue", "const", "rvalue"}
+  Cats = {"lvalue", "const", "rvalue", "crvalue"}
+  Styles = {"pre", "post"}
   Handoffs = {"direct", "copy", "move", "assign"}
 INVARIANTS VisitsAll WritesLand NoWritesElsewhere
 CONSTRAINT Track
